@@ -55,7 +55,7 @@ META = {
         "vm_compute for the table generated from the current main.py. TIED by fault enumeration: every "
         "executed stage x exception class x {no file, pre-existing file} on the real main_driver, natural "
         "triggers (incl. BaseException subclasses, failing --pdb-output/--apbs-input writers, closed stdout/stderr), "
-        "and an open()-monitor. SUCCESS half, proved part: C12_guard_never_fires_<FF> (C02's theorem restated per force "
+        "and an open()-monitor. The guard stage itself is tied to C02's guard model: C12_generated_guard_tolerance (generated from main.py/utilities.py/config.py: the tolerance is the fixed constant CHARGE_ERROR = TOL/SCALE, no structure-dependent argument) and a differential run of the extracted guard block on 1..5000 residues against guard_ok. SUCCESS half, proved part: C12_guard_never_fires_<FF> (C02's theorem restated per force "
         "field) - a structure of complete standard residues in parameterised table states cannot be rejected by the "
         "integrality guard - and C12_table_consistent_run_completes_<FF>: on the generated stage table, if the structure "
         "is table-consistent, the guard stage faults iff the modelled guard raises and no other stage faults, the run ends "
@@ -96,6 +96,7 @@ THEOREMS = [
     "C12_success_nonvacuous",
     "C12_guard_is_last_compute_spec",
     "C12_guard_order_nonvacuous",
+    "C12_generated_guard_tolerance",
 ]
 
 HEADER = (
@@ -135,6 +136,15 @@ def regenerate(ctx):
         return None
     core.write_if_changed(core.GEN / "Stages.v", text)
     info["_text"] = text
+    try:
+        import guard_c12 as gen_guard  # noqa
+
+        ginfo, gtext = gen_guard.generate(core.REPO)
+        core.write_if_changed(core.GEN / "GuardC12.v", gtext)
+        info["_guard"] = ginfo
+    except Exception as e:
+        ctx.broke("generator-broken", f"gen/guard_c12.py: {type(e).__name__}", f"{e}\n{traceback.format_exc()[-1200:]}")
+        info["_guard"] = None
     # the success-half theorems (C12_guard_never_fires_<FF>) rest on C02's state / force-field tables
     p = subprocess.run([sys.executable, str(core.VERIF / "gen" / "all.py"), "--only", "ff_tables,topology,states"], capture_output=True, text=True,
                        env={**os.environ, "VERIF_REPO": str(core.REPO)})
@@ -718,17 +728,24 @@ def structures():
     s["missing-CA"] = B.to_pdb(B.delete_atoms(pep5, lambda a: a.name == "CA" and a.resseq == 3))
     s["missing-CZ"] = B.to_pdb(B.delete_atoms(pep5, lambda a: a.name == "CZ" and a.resseq == 3))
     s["pep5"] = B.to_pdb(pep5)
+    import random as _r
+
+    rr = _r.Random(12)
+    for n in (150, 300):
+        seq = [rr.choice(["GLY", "ALA", "SER", "THR", "ASN", "LEU", "VAL"]) for _ in range(n)]
+        seq[n // 2] = "PHE"  # the only PHE: one atom of one residue carries the charge defect
+        s[f"big{n}"] = B.to_pdb(B.build_peptide(seq, origin=(n * 1.8, 0.0, 0.0)))  # centred: an extended chain of 300 residues spans 1000 A
     return s
 
 
-def bad_userff():
-    """A copy of AMBER.DAT / AMBER.names with one charge shifted by 0.25: non-integral total."""
+def bad_userff(delta=0.25, resname="PHE"):
+    """A copy of AMBER.DAT / AMBER.names with the charge of <resname> CB shifted by `delta`."""
     dat = (core.REPO / "pdb2pqr" / "dat" / "AMBER.DAT").read_text().splitlines()
     out, done = [], False
     for l in dat:
         f = l.split()
-        if not done and len(f) >= 4 and f[0] == "PHE" and f[1] == "CB":
-            f[2] = f"{float(f[2]) + 0.25:.4f}"
+        if not done and len(f) >= 4 and f[0] == resname and f[1] == "CB":
+            f[2] = f"{float(f[2]) + delta:.4f}"
             l = "\t".join(f)
             done = True
         out.append(l)
@@ -880,6 +897,9 @@ def judge(ctx, smap, case, obs, expect_fail=None, tag=""):
         if expect_fail and not any(b[0]["condition"] in ("atomless-pqr-written", "pqr-written-with-nonintegral-total-charge") for b in bad):
             bad.append(({"side": "failure", "site": "main_driver", "condition": "no-error", "trigger": trig},
                         f"{trig}: the run cannot produce a valid result but returned normally (output {obs['state']})"))
+    if case.get("expect") == "succeed" and obs["exc"]:
+        bad.append(({"side": "success", "site": site, "condition": "control-within-tolerance-rejected", "trigger": trig},
+                    f"{trig}: a total within the guard's tolerance was rejected ({obs['cause']}: {obs.get('cause_msg', '')[:100]})"))
     return bad
 
 
@@ -929,7 +949,33 @@ def check_trace(ctx, smap, runner, cfgname, obs):
 # natural triggers
 
 
-def natural_cases(structs):
+def bundled_large_case():
+    """Thorough tier: a bundled structure of several hundred residues (1AFS) with a user force field in
+    which the CB charge of its rarest internal residue type is raised so that the total is off by
+    0.0011 .. 0.0099.  -> (trigger, files, delta, control files) or None."""
+    for root in (core.REPO, Path("/repo")):
+        f = root / "tests" / "data" / "1AFS.pdb"
+        if f.exists():
+            break
+    else:
+        return None
+    text = f.read_text()
+    res = {}
+    for l in text.splitlines():
+        if l.startswith("ATOM") and l[12:16].strip() == "CB":
+            res.setdefault(l[17:20], set()).add((l[21], l[22:27]))
+    cand = sorted((len(v), k) for k, v in res.items() if k in ("PHE", "TRP", "MET", "TYR", "GLN", "ASN", "ILE", "LEU", "VAL", "THR", "SER"))
+    if not cand:
+        return None
+    cnt, rn = cand[0]
+    delta = max(1, round(25 / cnt)) / 10000.0
+    if not (0.0011 <= cnt * delta <= 0.0099):
+        return None
+    names = (core.REPO / "pdb2pqr" / "dat" / "AMBER.names").read_text()
+    return (f"userff-total-off-by-{cnt * delta:.4f}-on-1AFS", {"in.pdb": text, "my.DAT": bad_userff(delta, rn)[0], "my.names": names})
+
+
+def natural_cases(structs, thorough=False):
     P = structs
     dat, names = bad_userff()
     C = []
@@ -953,6 +999,15 @@ def natural_cases(structs):
     add("userff-missing-file", {"in.pdb": P["pep"]}, ["--userff={wd}/nope.DAT", "--usernames={wd}/nope.names", *io_], "fail")
     add("usernames-missing-file", {"in.pdb": P["pep"], "my.DAT": dat}, ["--userff={wd}/my.DAT", "--usernames={wd}/nope.names", *io_], "fail")
     add("userff-nonintegral-charge", {"in.pdb": P["pep5"], "my.DAT": dat, "my.names": names}, ["--userff={wd}/my.DAT", "--usernames={wd}/my.names", *io_], "fail")
+    # deviations just outside the guard's fixed 1e-3 on LARGE structures (the decision must not depend on size),
+    # with just-inside controls that must succeed
+    uf = ["--userff={wd}/my.DAT", "--usernames={wd}/my.names", "--noopt", *io_]
+    for n, d_bad in ((150, 0.0012), (300, 0.0025)):
+        add(f"userff-total-off-by-{d_bad}-on-{n}-residues", {"in.pdb": P[f"big{n}"], "my.DAT": bad_userff(d_bad)[0], "my.names": names}, uf, "fail")
+        add(f"userff-total-off-by-0.0005-on-{n}-residues(control)", {"in.pdb": P[f"big{n}"], "my.DAT": bad_userff(0.0005)[0], "my.names": names}, uf, "succeed")
+    big = bundled_large_case() if thorough else None
+    if big:
+        add(big[0], big[1], ["--userff={wd}/my.DAT", "--usernames={wd}/my.names", "--noopt", "--nodebump", *io_], "fail")
     add("userff-garbage", {"in.pdb": P["pep"], "my.DAT": "ALA CB notanumber 1.0\nALA\n", "my.names": names}, ["--userff={wd}/my.DAT", "--usernames={wd}/my.names", *io_], "fail")
     add("neutraln-non-parse", {"in.pdb": P["pep"]}, ["--ff=AMBER", "--neutraln", *io_], "fail")
     add("neutralc-non-parse", {"in.pdb": P["pep"]}, ["--ff=AMBER", "--neutralc", *io_], "fail")
@@ -1331,6 +1386,91 @@ def judge_cli(ctx, r, report_=True):
     return sig
 
 
+GUARD_HEADER = "From Coq Require Import String ZArith.\nFrom PV Require Import Model.States.\nOpen Scope string_scope.\n"
+GUARD_NS = [1, 50, 100, 101, 150, 700, 5000]
+GUARD_DS = ["0", "0.0009", "0.00099", "0.00101", "0.0011", "0.002", "0.005", "0.0099", "-0.00099", "-0.00101", "-0.0099", "0.4", "0.5"]
+
+
+class _FakeResidue:
+    def __init__(self, i, charge):
+        self.i, self.charge = i, charge
+
+    def __str__(self):
+        return f"FAKE {self.i}"
+
+
+class _FakeBiomolecule:
+    def __init__(self, charges):
+        self.residues = [_FakeResidue(i, c) for i, c in enumerate(charges)]
+        self.atoms = []
+
+
+def guard_block_tie(ctx, runner, info):
+    """The GUARD STAGE against its model.  The statements of main.non_trivial from the initialisation
+    of the charge accumulator to the `raise` are compiled on their own (ast, unmodified) and executed in
+    main's namespace on biomolecules of N residues with prescribed per-residue charges whose exact total
+    is k + d; raise / no-raise must equal Model.States.guard_ok on the same exact decimals (vm_compute)
+    and - model-independent - must not depend on N."""
+    from decimal import Decimal
+
+    g = info.get("_guard") if info else None
+    if not g:
+        ctx.notes.append("guard block not extracted: guard tie skipped")
+        return
+    pmain = runner.pmain
+    code = compile(ast.fix_missing_locations(ast.Module(body=list(g["block_stmts"]), type_ignores=[])), g["main_path"] + ":guard-block", "exec")
+    pattern = ["1.0", "-1.0", "0.0", "0.1234", "-0.1234", "0.5", "-0.5", "0.3333", "-0.3333", "2.0", "-2.0"]
+    cases = []
+    for ni, n in enumerate(GUARD_NS):
+        for di, d in enumerate(GUARD_DS):
+            k = [0, 3, -2, 17][(ni + di) % 4]
+            others = [Decimal(pattern[i % len(pattern)]) for i in range(n - 1)]
+            last = Decimal(k) + Decimal(d) - sum(others, Decimal(0))
+            charges = others + [last]
+            cases.append({"n": n, "d": d, "k": k, "charges": charges, "total_e8": int(sum(charges, Decimal(0)) * 10 ** 8)})
+    try:
+        model = core.run_cases("C12guard", GUARD_HEADER, [f'if guard_ok ({core.coq_Z(c["total_e8"])}) then "pass" else "raise"' for c in cases], chunk=200)
+    except core.CoqEvalError as e:
+        ctx.broke("correspondence-broken", "guard model evaluation failed (Model.States.guard_ok)", str(e))
+        model = [None] * len(cases)
+    by_d = {}
+    nmis = 0
+    for c, m in zip(cases, model):
+        ns = dict(vars(pmain))
+        ns["biomolecule"] = _FakeBiomolecule([float(x) for x in c["charges"]])
+        ns["args"] = None
+        with quiet():
+            try:
+                exec(code, ns)  # noqa: S102 - the repo's own statements
+                got = "pass"
+            except ValueError:
+                got = "raise"
+            except Exception as e:  # the block needs something the harness does not provide: fail closed
+                ctx.broke("correspondence-broken", "guard block of main.non_trivial could not be executed on prescribed charges", f"{type(e).__name__}: {e}")
+                return
+        ctx.count(f"guard-block:{got}")
+        ctx.evaluated(("guard-block", c["n"], c["d"]), True)
+        by_d.setdefault(c["d"], {})[c["n"]] = got
+        if m is not None:
+            ctx.cov["correspondence_cases"] += 1
+            if got != m:
+                nmis += 1
+                ctx.cov["correspondence_disagreements"] += 1
+                if nmis <= 3:
+                    ctx.broke("correspondence-broken", "Model.States.guard_ok vs the guard block of main.non_trivial (summing loop .. raise)",
+                              f"N={c['n']} residues, exact total {c['k']}+({c['d']}): code {got}, model {m}", {"kind": "guard-block", "n": c["n"], "d": c["d"], "k": c["k"]})
+    for d, per_n in by_d.items():
+        if len(set(per_n.values())) > 1:
+            small = min(per_n)
+            diff = sorted(n for n, v in per_n.items() if v != per_n[small])
+            ctx.fail({"side": "failure", "site": "main.non_trivial:guard", "condition": "guard-decision-depends-on-structure-size", "d": d},
+                     f"total off an integer by {d}: the guard block decides {per_n[small]} for {small} residue(s) but {per_n[diff[0]]} for {diff} residues",
+                     {"kind": "guard-block", "d": d, "decisions": {str(n): v for n, v in sorted(per_n.items())}})
+    ctx.cov["guard_block_lines"] = list(g["block"])
+    sc = min(40, len(cases) - 1)
+    ctx.sample({"guard_block_case": {"N": cases[sc]["n"], "exact_total": f"{cases[sc]['k']}+({cases[sc]['d']})"}, "model": model[sc], "lines_of_main_py": list(g["block"])})
+
+
 def writer_truncation_check(ctx, runner, smap, structs, preds):
     """The in-writer case on the real code, with a pre-existing file and the fault AFTER several
     lines were written: the model says Partial.  Confirm what the code really does - truncate in
@@ -1513,13 +1653,14 @@ def run(ctx):
                                         "model": preds[(k, fk, pre)] if preds else None, "observed": show(obs), "escaped": obs["exc"]})
     if smap.n:
         writer_truncation_check(ctx, runner, smap, structs, preds)
+    guard_block_tie(ctx, runner, info)
     ctx.cov["stages_total"] = smap.n
     ctx.cov["stages_fault_injected"] = len(covered)
     ctx.cov["stages_never_executed"] = [f"{s['idx']}:{s['name']}" for s in smap.stages if s["idx"] not in covered]
     ctx.cov["fault_runs"] = nfault
 
     # ---- natural triggers
-    for nc in natural_cases(structs):
+    for nc in natural_cases(structs, ctx.thorough):
         for pre in (False, True):
             case = dict(nc)
             case["pre"] = pre
@@ -1632,6 +1773,15 @@ def replay(ctx, data):
     info = regenerate(ctx) or {"stages": [], "tests": []}
     smap = StageMap(info)
     runner = Runner(ctx, smap)
+    if case.get("kind") == "guard-block":
+        global GUARD_DS
+        GUARD_DS = [case["d"]]
+        before = len(ctx.failures)
+        guard_block_tie(ctx, runner, info)
+        still = len(ctx.failures) > before or any("guard block" in b["what"] or "guard_ok" in b["what"] for b in ctx.broken)
+        print("replay guard-block d =", case["d"], ":", "FAILS" if still else "passes", [f["what"][:160] for f in ctx.failures[before:]])
+        ctx.cleanup()
+        return 1 if still else 0
     if case.get("kind") == "cli":
         rc, state, why, err = cli_run(runner, case)
         r = {"tag": case["tag"], "rc": rc, "state": state, "why": why, "expect": case["expect"], "stderr_tail": err, "case": case}
